@@ -330,7 +330,60 @@ func run(c *props.Ctx) {
 	}
 	if c.Shard == 0 {
 		memoryAdaptive(c)
+		warmUpThrottling(c)
 	}
+}
+
+// warmUpThrottling: "every valid warm-up rule" includes the ones whose control behaviour is throttling
+// (requests are paced at the current allowed rate instead of being counted against it). Directed
+// enumeration: one request per millisecond, no queueing, for 2*period+3 s from a cold start.
+func warmUpThrottling(c *props.Ctx) {
+	n := 0
+	for _, T := range []float64{10, 100} {
+		for _, period := range []uint32{1, 2, 5} {
+			for _, cold := range []uint32{0, 2, 3, 5} {
+				cfg := Config{T, period, cold}
+				env.ResetAll(env.DefaultGeometry, T0)
+				rule := &flow.Rule{Resource: "a", TokenCalculateStrategy: flow.WarmUp, ControlBehavior: flow.Throttling, Threshold: T,
+					WarmUpPeriodSec: period, WarmUpColdFactor: cold, MaxQueueingTimeMs: 0}
+				if _, err := flow.LoadRules([]*flow.Rule{rule}); err != nil || len(flow.GetRules()) != 1 {
+					c.R.HarnessError(fmt.Sprintf("warm-up throttling rule %v not accepted", cfg))
+					continue
+				}
+				dur := int64(2*period+3) * 1000
+				perSec := make([]int, dur/1000)
+				for ms := int64(0); ms < dur; ms++ {
+					env.Clock.SetMs(T0 + ms)
+					if e, blk := sentinel.Entry("a"); blk == nil {
+						e.Exit()
+						perSec[ms/1000]++
+					}
+				}
+				n++
+				what := ""
+				first, last := perSec[0], perSec[len(perSec)-1]
+				lim := int(math.Ceil(T/cfg.cold())) + 1
+				for sec, k := range perSec {
+					if float64(k) > T {
+						what = fmt.Sprintf("warm-up rule with throttling behaviour: %d requests admitted in second %d, threshold %v", k, sec, T)
+					}
+				}
+				if what == "" && first > lim {
+					what = fmt.Sprintf("warm-up rule with throttling behaviour: %d requests admitted in the first second from a cold start, more than about threshold/coldFactor = %v/%v", first, T, cfg.cold())
+				}
+				if what == "" && last < int(T)-1 {
+					what = fmt.Sprintf("warm-up rule with throttling behaviour: after %d s of saturating demand only %d requests were admitted in the last second, threshold %v (period %d s); per second: %v", dur/1000, last, T, period, perSec)
+				}
+				c.R.Outcome(fmt.Sprintf("wt|%v|%d/%d", cfg, first, last))
+				if what != "" {
+					c.R.Violate(report.Violation{Signature: "C11:warmup-throttling:" + map[bool]string{true: "never-warm", false: "envelope"}[strings.Contains(what, "saturating")],
+						What: what, Scenario: cfg.String(), Replay: map[string]interface{}{"kind": "warmup-throttling", "cfg": cfg}})
+				}
+			}
+		}
+	}
+	c.R.Evaluations += int64(n)
+	c.R.Bounds["warm_up_throttling_rules"] = n
 }
 
 // memoryAdaptive: exhaustive grid of rules x readings.
